@@ -254,9 +254,12 @@ class Hist:
         else:
             d = None
             line = "get %s %d %s %s" % (T, h, hx(g), hx(k))
-        self.add(line, lambda ev, h=h, T=T, g=g, k=k, isdef=isdef, d=d: [{
+        dn = {"Float": "3fc00000", "Double": "3ff8000000000000", "Bool": "1"}.get(T, "5")
+        self.add(line, lambda ev, h=h, T=T, g=g, k=k, isdef=isdef, d=d, dn=dn: [{
             "e": "get", "h": h if h in self.live_at else 0, "T": T, "g": opt(g), "k": opt(k), "rc": ev["rc"], "isdef": isdef,
-            "def": opt(d), "out": opt(ev.get("out")) if T == "String" else []}])
+            "def": opt(d), "out": opt(ev.get("out")) if T == "String" else [],
+            # typed default: what came back and what was passed as default, as text (C11: the default exactly when absent)
+            "outs": str(ev.get("out")), "defs": dn}])
 
     def listing(self, h):
         if self.r.random() < 0.5:
